@@ -50,3 +50,29 @@ PROPS["C02"] = dict(
     trusted_base=COMMON_TB,
     assumptions=COMMON_AS + ["payload operators are total (f32 / bool); Quantity payload unit panics belong to C01"],
 )
+
+PROPS["C14"] = dict(
+    gen=cases.gen_C14,
+    mask={"time", "cat", "unit", "float"},
+    rule="random finite state triples (25% exact zeros, some -0) x dt in {0, ±1 ns, ±2 s, random up to ±1e5 s}; all 49 grid "
+         "units as argument of each setter and in each position of State::new; all 3x3 command kind pairs for add/sub/eq; "
+         "scalar ops; accessors; PID gain evaluation. distinct_nontrivial = distinct case lines the model executes",
+    trusted_base=COMMON_TB + ["tier-R theorems (state_update_*) are over an ordered field with exact ofInt; f32 rounding of "
+                              "State::update is not proved — the Float32 model is compared bit-for-bit instead"],
+    assumptions=COMMON_AS,
+    partial="Kinematics closed form proved in exact arithmetic (tier R); rounding not proved.",
+)
+
+PROPS["C18"] = dict(
+    gen=cases.gen_C18,
+    mask={"time", "cat", "unit", "float"},
+    rule="i64 operands stratified over magnitudes 0..2^62, signs, extremes and neighbourhoods of 2^24*2^k (f32 rounding ties); "
+         "every Time/DimensionlessInteger operator and assign form incl. overflow and /0 panics; conversions to/from Quantity and i64; "
+         "f32 seconds stratified over exponent/mantissa below 9e9; TryFrom on all 49 units; every mixed impl on all 49 units",
+    trusted_base=COMMON_TB + ["IEEE-754 round-to-nearest of `as f32`, `/`, `*` and saturating `as i64`: exercised bit-for-bit by the "
+                              "correspondence, not proved"],
+    assumptions=["debug build: integer overflow panics (release wraps; the property quantifies over non-overflowing inputs)"],
+    partial="Integer exactness, success conditions and the identity of every mixed operator with its converted form are proved; "
+            "the accuracy clauses (two ulps, monotone, round-trip <= |t|*2^-22 + 1 ns) concern binary32 rounding and are tested "
+            "bit-for-bit against Lean's Float32, not proved.",
+)
